@@ -18,6 +18,9 @@ type guardTr struct {
 	ct   *constTable
 	recv map[string]bool // identifiers that denote the connection or one of its parts (receiver chains)
 	fd   *ast.FuncDecl
+	// rename: parameters of a helper rendered in place, mapped to the atoms of the arguments it was called with
+	rename map[string]string
+	depth  int
 	// boolean result functions return "true"/"false"; functions whose last result is `error` return "ok"/"err"
 	boolFn bool
 }
@@ -41,6 +44,9 @@ func (t *guardTr) atom(e ast.Expr) (string, bool) {
 	// drop leading receiver identifiers and the `c` hop
 	for len(parts) > 1 && (t.recv[parts[0]] || parts[0] == "c") {
 		parts = parts[1:]
+	}
+	if r, ok := t.rename[parts[0]]; ok {
+		parts[0] = r
 	}
 	return strings.Join(parts, "."), true
 }
@@ -216,9 +222,77 @@ func (t *guardTr) block(list []ast.Stmt) string {
 	return "[" + strings.Join(out, ", ") + "]"
 }
 
+// guardActions: the calls the decision tables of WS/Props/GuardsDefs.lean speak about. A call of any *other* function or
+// method of the package is a helper the code was split into: it is rendered in place (inlineHelper).
+var guardActions = map[string]bool{"writeError": true, "writeMu.lock": true, "readLoop": true, "readFramePayload": true, "mask": true,
+	"writeFramePayload": true, "writeFrameMu.lock": true, "writeFrameHeader": true, "writeFrame": true, "writeControl": true,
+	"writeClose": true, "write": true, "setFrame": true, "readMu.lock": true, "readFrameHeader": true, "putFlateWriter": true,
+	"parseClosePayload": true, "mu.unlock": true, "msgReader.reset": true, "handleControl": true, "flateWriter.Write": true,
+	"flateWriter.Flush": true, "flateTail.Read": true, "ensureFlate": true, "bw.Flush": true, "activePingsMu.Unlock": true,
+	"activePingsMu.Lock": true, "writeFrameMu.unlock": true, "writeMu.unlock": true, "readUnlock": true, "mu.lock": true,
+	"reset": true, "close": true, "flateContextTakeover": true, "readRSV1Illegal": true, "flate": true}
+
+// helperDecl: the declaration of a package function / method the call refers to, when it is a helper to render in place.
+func (t *guardTr) helperDecl(c *ast.CallExpr, name string) *ast.FuncDecl {
+	if guardActions[name] || t.depth >= 3 {
+		return nil
+	}
+	var sel string
+	switch f := c.Fun.(type) {
+	case *ast.Ident:
+		sel = f.Name
+	case *ast.SelectorExpr:
+		sel = f.Sel.Name
+	default:
+		return nil
+	}
+	if guardActions[sel] {
+		return nil
+	}
+	var cands []*ast.FuncDecl
+	for k, fd := range t.p.funcs {
+		if k == sel || strings.HasSuffix(k, "."+sel) {
+			cands = append(cands, fd)
+		}
+	}
+	if len(cands) != 1 || cands[0].Body == nil {
+		return nil
+	}
+	return cands[0]
+}
+
+// inlineHelper renders the body of a helper in place of its call: its parameters stand for the atoms of the arguments, its
+// receiver for the connection.
+func (t *guardTr) inlineHelper(fd *ast.FuncDecl, c *ast.CallExpr) string {
+	t2 := &guardTr{p: t.p, ct: t.ct, recv: map[string]bool{}, fd: fd, rename: map[string]string{}, depth: t.depth + 1}
+	if fd.Recv != nil && len(fd.Recv.List) == 1 && len(fd.Recv.List[0].Names) == 1 {
+		t2.recv[fd.Recv.List[0].Names[0].Name] = true
+	}
+	i := 0
+	for _, f := range fd.Type.Params.List {
+		for _, n := range f.Names {
+			if i < len(c.Args) {
+				if a, ok := t.atom(c.Args[i]); ok {
+					t2.rename[n.Name] = a
+				}
+			}
+			i++
+		}
+	}
+	if fd.Type.Results != nil && len(fd.Type.Results.List) == 1 {
+		if id, ok := fd.Type.Results.List[0].Type.(*ast.Ident); ok && id.Name == "bool" {
+			t2.boolFn = true
+		}
+	}
+	return t2.block(fd.Body.List)
+}
+
 func (t *guardTr) callActs(e ast.Expr) []string {
 	if c, ok := e.(*ast.CallExpr); ok {
 		if name, ok := t.isLocalCall(c); ok {
+			if fd := t.helperDecl(c, name); fd != nil {
+				return []string{".scope \"\" " + t.inlineHelper(fd, c)}
+			}
 			return []string{".act " + leanStr(name)}
 		}
 	}
@@ -250,9 +324,18 @@ func (t *guardTr) stmt(s ast.Stmt) []string {
 			// `return …, err`: an error exactly when the variable is non-nil
 			return append(pre, fmt.Sprintf(".ifElse (.v %s) [.ret \"err\"] [.ret \"ok\"]", leanStr(id.Name+"!=nil")))
 		}
+		if lc, ok := last.(*ast.CallExpr); ok && len(s.Results) == 1 {
+			if name, ok := t.isLocalCall(lc); ok {
+				if fd := t.helperDecl(lc, name); fd != nil {
+					// `return helper(...)`: the helper's returns are this function's
+					body := t.inlineHelper(fd, lc)
+					return []string{strings.TrimSuffix(strings.TrimPrefix(body, "["), "]")}
+				}
+			}
+		}
 		if _, ok := last.(*ast.CallExpr); ok && len(pre) > 0 {
-			// `return c.f(...)`: the callee decides
-			return append(pre, ".ret \"callee\"")
+			// `return c.f(...)`: the callee decides — an error exactly when the call failed
+			return append(pre, ".ifElse (.v \"err!=nil\") [.ret \"err\"] [.ret \"ok\"]")
 		}
 		return append(pre, ".ret \"err\"")
 	case *ast.IfStmt:
@@ -367,7 +450,14 @@ func (t *guardTr) stmt(s ast.Stmt) []string {
 	case *ast.AssignStmt:
 		var out []string
 		for _, r := range s.Rhs {
-			out = append(out, t.callActs(r)...)
+			acts := t.callActs(r)
+			// `…, v := helper(…)`: the helper's error / boolean result decides v!=nil / v
+			if len(acts) == 1 && strings.HasPrefix(acts[0], ".scope \"\" ") && len(s.Rhs) == 1 {
+				if id, ok := s.Lhs[len(s.Lhs)-1].(*ast.Ident); ok && id.Name != "_" {
+					acts[0] = ".scope " + leanStr(id.Name) + acts[0][len(".scope \"\""):]
+				}
+			}
+			out = append(out, acts...)
 		}
 		// an assignment to a flag of the connection is an action of its own; an assignment to a tracked boolean
 		// variable (the bits of the reused write header) updates the evaluator's store
